@@ -298,7 +298,7 @@ def rule_saves(ctx: Ctx, out: Collector) -> None:
             val_expr = c.args[1] if len(c.args) > 1 else None
             val = sym.term(ctx.p, val_expr, sv.inst) if val_expr is not None else None
             # ---- AS-3
-            same = [pb for pb in pubs if pb.home.inst is sv.inst and pb.key == key and pb.value == val]
+            same = [pb for pb in pubs if pb.key == key and pb.value == val]
             cons = cons_base + ' [saved (id, value) == published (id, value)]'
             if same:
                 out.ok('AS-3', cons, sv.where(), f'{sym.show(key)}, {sym.show(val)}')
